@@ -41,7 +41,7 @@ func (g *gen) boundaryDeployment() *Op {
 		if u.Resources.CPU == nil || u.Resources.Memory == nil || u.Resources.Storage == nil {
 			return
 		}
-		switch k := r.Choose(34, "bd.kind"); k {
+		switch k := r.Choose(37, "bd.kind"); k {
 		case 0:
 			groups = nil
 			what += "groups=0 "
@@ -176,6 +176,46 @@ func (g *gen) boundaryDeployment() *Op {
 			groups[0].Resources[0].Count = 2
 			groups[0].Resources[1].Resources.Memory.Quantity = rv(unit.Mi)
 			what += "mem: 2x16Gi + 1Mi (sum = group max + 1Mi) "
+		case 34:
+			// the same name twice with other groups in between, in front or behind
+			n := 3 + r.Choose(3, "bd.dup.n")
+			groups = nil
+			for i := 0; i < n; i++ {
+				groups = append(groups, dtypes.GroupSpec{Name: fmt.Sprintf("g%d", i), Resources: []dtypes.Resource{unitOK()}})
+			}
+			i := r.Choose(n-2, "bd.dup.i")
+			j := i + 2 + r.Choose(n-i-2, "bd.dup.j")
+			groups[j].Name = groups[i].Name
+			what += fmt.Sprintf("groups=%d, names of #%d and #%d equal (not adjacent) ", n, i, j)
+		case 35:
+			// a value that is in range only after truncation to 32 or 16 bits
+			wrap := []uint64{1 << 32, 1 << 16, 1 << 48}[r.Choose(3, "bd.wrap.bits")]
+			switch r.Choose(4, "bd.wrap.field") {
+			case 0:
+				u.Resources.CPU.Units = rv(wrap + uint64(cfg.MinUnitCPU) + 90)
+			case 1:
+				u.Resources.Memory.Quantity = rv(wrap*unit.Mi + cfg.MinUnitMemory)
+			case 2:
+				u.Resources.Storage.Quantity = rv(wrap*unit.Mi + cfg.MinUnitStorage)
+			default:
+				u.Count = uint32(wrap) + 1 // 2^16+1 (2^32 and 2^48 wrap to 1 by themselves: in range)
+			}
+			what += fmt.Sprintf("value = in-range + %d (in range only when truncated) ", wrap)
+		case 36:
+			// a later resource entry carries the excess: the first one is fine
+			groups[0].Resources = append(groups[0].Resources, unitOK(), unitOK())
+			x := &groups[0].Resources[1+r.Choose(2, "bd.later.which")]
+			switch r.Choose(4, "bd.later.field") {
+			case 0:
+				x.Resources.CPU.Units = rv(uint64(cfg.MaxUnitCPU) + 1)
+			case 1:
+				x.Resources.Memory.Quantity = rv(cfg.MaxUnitMemory + 1)
+			case 2:
+				x.Count = uint32(cfg.MaxUnitCount) + 1
+			default:
+				x.Price = sdk.NewInt64Coin(Denom, 0)
+			}
+			what += "excess in a later resource entry "
 		}
 	}
 	mutate()
